@@ -470,6 +470,11 @@ func runC19(c *vk.Ctx) {
 		}
 	}
 	c.Set("sim_max_final_segments_by_arrivals", maxBy)
+	// the same clause with a real writer applying the plans (and one injected merge failure in every other run)
+	for i := 0; i < c.Pick(8, 120); i++ {
+		c19RealWriter(c, i)
+	}
+	c.Require("real_writer_histories", 4)
 	c.Require("plans_with_tasks", 100)
 	c.Require("sim_quiescent_states_checked", 1000)
 	c.Require("inputs_with_thousands_of_segments", 1)
